@@ -37,7 +37,10 @@ def recurrence_abc(n, alpha, beta):
         Aden = 2 * (n + 1) * (n + alpha + beta + 1)
         A = Anum/Aden
 
-        Bnum = (alpha**2 - beta**2) * (2 * n + alpha + beta + 1)
+        # (alpha - beta) * (alpha + beta), not alpha**2 - beta**2: when alpha + beta is a
+        # rounding residue (alpha = 0.1 + 0.2, beta = -0.3) the difference of the squares
+        # is all cancellation error and, for n = 0, it is divided by that same residue
+        Bnum = (alpha - beta) * (alpha + beta) * (2 * n + alpha + beta + 1)
         Bden = 2 * (n+1) * (n + alpha + beta + 1) * (2 * n + alpha + beta)
         B = Bnum / Bden
 
